@@ -7,13 +7,13 @@
 EXTENDS Storage, Json
 Trace == ndJsonDeserialize("c18obs.ndjson")
 VARIABLE l
-tvars == <<objs, res, last, hist, l>>
+tvars == <<objs, res, last, hist, via, l>>
 
 ToSet(s) == {s[i] : i \in DOMAIN s}
 
 TInit == /\ l = 1
          /\ objs = <<>>
-         /\ res = Res("init", TRUE, "", {}) /\ last = Op("init", "", <<>>, "", <<>>, "") /\ hist = <<>>
+         /\ res = Res("init", TRUE, "", {}) /\ last = Op("init", "", <<>>, "", <<>>, "") /\ hist = <<>> /\ via = 1
 
 TNext == /\ l <= Len(Trace)
          /\ l' = l + 1
@@ -22,7 +22,7 @@ TNext == /\ l <= Len(Trace)
                         [] r.op = "write" -> WriteEffect(objs, r.b, r.name, r.data)
                         [] r.op = "copy" -> CopyEffect(objs, r.b, r.name, r.sb, r.sname)
                         [] OTHER -> objs
-         /\ UNCHANGED <<res, last, hist>>
+         /\ UNCHANGED <<res, last, hist, via>>
 
 DiskOf(o) == UNION {{[b |-> b, name |-> n, data |-> o[b][n]] : n \in DOMAIN o[b]} : b \in DOMAIN o}
 
